@@ -6,6 +6,7 @@
  *   erase L idx | clear L | shrink L | sort L | swap L a b | ensure L idx | calc L idx
  *   front L | back L | get L idx | dump L | copy FROM TO | swapc A B
  *   forged L len (push_back val | push_front val | shrink)     -- length forged for the one call
+ *   balance     -- cleans up every list, prints "P live=<blocks still live that the lists acquired>" (must be 0)
  *   val = hex of item_size bytes, or v<k>: byte i = (k*131 + i*29 + (i/128)*3) mod 256
  * output: "P rc=<OK|error name>", then for every list touched "P len L n", "W cs L current_size fnv=<hash of
  *   the whole backing store>", "P guard L ok|BROKEN" (static storage: canaries on both sides).  Elements are
@@ -62,6 +63,7 @@ struct slot {
     size_t raw_size;
 };
 static struct slot s_al[NLISTS];
+static long s_base_blocks; /* hc_live_blocks() when the case began (all slots empty) */
 
 static uint64_t s_fnv(const uint8_t *p, size_t n) {
     uint64_t h = 0xcbf29ce484222325ULL;
@@ -203,6 +205,15 @@ static void s_val_short(int rc, const uint8_t *buf, size_t isz) {
 static void s_al_op(char **t, int n) {
     /* t[0] = op */
     const char *op = t[0];
+    if (!strcmp(op, "balance") && n == 1) {
+        /* allocator balance: after cleaning up every list nothing the lists acquired may still be live */
+        for (int k = 0; k < NLISTS; ++k) {
+            s_slot_clean(&s_al[k]);
+        }
+        printf("P live=%ld\n", hc_live_blocks() - s_base_blocks);
+        s_base_blocks = hc_live_blocks();
+        return;
+    }
     if ((!strcmp(op, "init_dyn") || !strcmp(op, "init_static")) && n == 4) {
         int k = s_parse_l(t[1]);
         if (k < 0 || !s_is_size(t[2]) || !s_is_size(t[3])) {
@@ -788,6 +799,7 @@ static void s_reset(void) {
     for (int k = 0; k < NNODES; ++k) {
         s_where[k] = -1;
     }
+    s_base_blocks = hc_live_blocks();
 }
 
 int main(void) {
